@@ -263,9 +263,7 @@ fn canary(inv: &Inv, pred: &model::Prediction, out: &run::Outcome, fired: &run::
             }
         }
         Shape::FormatAll { .. } => {
-            if !out.trace.iter().any(|e| e.sym == "opendir") {
-                return Some("format-all without any opendir in the trace".into());
-            }
+            // liveness only (a tool may give up before it walks, e.g. when a lock is refused)
         }
         Shape::Stdin { .. } => {
             if !out.trace.iter().any(|e| e.sym == "read" && e.target == "@0") {
@@ -274,11 +272,8 @@ fn canary(inv: &Inv, pred: &model::Prediction, out: &run::Outcome, fired: &run::
         }
         _ => {}
     }
-    if let Some(want) = &pred.stdout {
-        if !want.is_empty() && !out.stdout.is_empty() && !out.trace.iter().any(|e| e.sym == "write" && e.target == "@1") {
-            return Some("stdout is non-empty but no write(1) was intercepted".into());
-        }
-    }
+    // (no demand that stdout bytes pass through write(1): in-kernel copies are refused by the
+    // interposer with ENOSYS, but a caller may have other legal ways)
     None
 }
 
